@@ -6,6 +6,7 @@ import (
 	"io"
 
 	"github.com/apache/thrift/lib/go/thrift"
+	"github.com/nats-io/nats.go"
 )
 
 // Pure re-exports of unexported functions for the verification harness
@@ -72,3 +73,25 @@ func VerifGetOpID(ctx FContext) (uint64, error) { return getOpID(ctx) }
 func VerifPrependFrameSize(b []byte) []byte { return prependFrameSize(b) }
 
 var _ = thrift.INVALID_DATA
+
+// VerifNatsServerProcessFrame runs fNatsServer.processFrame on the given
+// message bytes with the given processor and no NATS connection (a processor
+// that writes a reply would need one; the harness's processors for this entry
+// point write nothing).
+func VerifNatsServerProcessFrame(p FProcessor, pf *FProtocolFactory, data []byte) error {
+	s := &fNatsServer{processor: p, protoFactory: pf}
+	return s.processFrame(&frameWrapper{frameBytes: data, ephemeralProperties: map[interface{}]interface{}{}})
+}
+
+// VerifNatsSubscriberWorker starts one fNatsSubscriberTransport.worker with the
+// given callback and returns functions to feed it a message, to stop it, and a
+// channel that is closed when the worker goroutine has returned.
+func VerifNatsSubscriberWorker(callback FAsyncCallback) (feed func([]byte), stop func(), exited <-chan struct{}) {
+	n := &fNatsSubscriberTransport{workC: make(chan *nats.Msg, 64), quitC: make(chan struct{})}
+	done := make(chan struct{})
+	go func() {
+		n.worker(callback)
+		close(done)
+	}()
+	return func(b []byte) { n.workC <- &nats.Msg{Data: b} }, func() { close(n.quitC) }, done
+}
